@@ -211,6 +211,13 @@ def run_tty_cases(res, exe, driver, cases, tmp, tag, compare_output=True, rng=No
             ev = dict(ev or {})
             for k, lst in c.meta["prints"].items():
                 ev[k] = list(ev.get(k, [])) + [("print", t, enc([ord(x) for x in text])) for (t, text) in lst]
+        if c.meta.get("bursts"):
+            ev = dict(ev or {})
+            total = 0
+            for k in sorted(c.meta["bursts"]):
+                lst = c.meta["bursts"][k]
+                total += len(lst)
+                ev[k] = list(ev.get(k, [])) + [("print_nowait", t, enc([ord(x) for x in text])) for (t, text) in lst] + [("wait_acks", total)]
         jobs.append((exe, c.spec(), ch, c.cols, ev))
     # processes, not threads: the driver polls /proc and must not share a GIL
     import multiprocessing
@@ -227,7 +234,8 @@ def run_tty_cases(res, exe, driver, cases, tmp, tag, compare_output=True, rng=No
         impl = canon_impl(raw)
         model = canon_model(m) if m is not None else None
         # the hang-up that ends a script is not part of the comparison: drop the reads it ends
-        if model is not None and not c.meta.get("events"):      # (prints are part of the model's input, signals are not)
+        if model is not None and not c.meta.get("events") and not c.meta.get("bursts"):
+            # (prints at quiescent points are part of the model's input; signals and racing bursts are not)
             # what is written around a hang-up is lost with the terminal: compare those reads without output
             nw = lambda rs: [r.split(" W=")[0] if r.startswith("O=hangup") else r for r in rs]
             a = nw(impl) if compare_output else strip_w(impl)
